@@ -5,6 +5,8 @@
    2 ELEMENT : kind v             merr tree  uerr  opt(decoded value)
    3 DOC     : cfg  doc(tree)  opt(expected osm value)  uerr  opt(decoded osm value)
    4 CHANGE  : cfg  v(change value) merr tree uerr opt(decoded change value)
+   5 GO-ONLY : (nothing) — a case outside the modelled fragment (Changeset.Change non-nil),
+               judged by the harness: marshal (unmarshal (marshal v)) = marshal v
    codes: 1 = model <> implementation (marshal tree, or unmarshal result class/value),
           2 = property oracle fails on what the implementation returned
               (osmjson shape of its output; own output decodable; decoded value equivalent to
@@ -176,6 +178,7 @@ Definition check_case (t : toks) : list Z :=
                    else if tag =? 2 then check_elem
                    else if tag =? 3 then check_doc
                    else if tag =? 4 then check_change
+                   else if tag =? 5 then ret []   (* judged on the Go side only (OracleFail) *)
                    else pfail) t with
   | Some codes => codes
   | None => [0]
